@@ -73,3 +73,28 @@ Theorem C02_dispatch_nearest_ancestor : forall classes tbl t,
                      Forall (fun a => assoc_case a tbl = None) pre.
 Proof. exact dispatch_nearest_ancestor. Qed.
 Print Assumptions C02_dispatch_nearest_ancestor.
+
+(* ---- the documented outer form of what the dumpers return (Model/Dump.v, tied to the library by correspondence) ---- *)
+(* every iterable is dumped element-wise, in iteration order, as a tuple - as a list exactly when the type is list *)
+Theorem C02_dump_iterable_form : forall UM k t v r, dump UM (TIter k t) v = Some r ->
+  exists l rs, elems_of v = Some l /\ Forall2 (fun x y => dump UM t x = Some y) l rs /\
+               r = match k with KList => VList rs | _ => VTuple rs end.
+Proof. exact dump_iterable_form. Qed.
+Print Assumptions C02_dump_iterable_form.
+
+(* a fixed tuple is dumped position-wise, each position by its own type's dumper, as a tuple of the same length *)
+Theorem C02_dump_tuple_form : forall UM ts v r, dump UM (TTuple ts) v = Some r ->
+  exists l rs, (v = VTuple l \/ v = VList l) /\ List.length l = List.length ts /\
+               Forall2 (fun tx y => dump UM (fst tx) (snd tx) = Some y) (combine ts l) rs /\ r = VTuple rs.
+Proof. exact dump_tuple_form. Qed.
+Print Assumptions C02_dump_tuple_form.
+
+(* int, float, bool, str, None, Any and Literal are dumped without conversion *)
+Theorem C02_dump_scalar_identity : forall UM t v,
+  match t with TInt | TFloat | TBool | TStr | TNone | TAny | TLit _ => True | _ => False end -> dump UM t v = Some v.
+Proof. exact dump_scalar_identity. Qed.
+Print Assumptions C02_dump_scalar_identity.
+
+Theorem C02_dump_optional_form : forall UM t v, dump UM (TOpt t) v = match v with VNone => Some VNone | _ => dump UM t v end.
+Proof. exact dump_optional_form. Qed.
+Print Assumptions C02_dump_optional_form.
